@@ -170,3 +170,11 @@ Definition trap_weight_v (fixed modb bnd : bool) (np npwb lo up : nat) (s e : Qc
   else c i.
 Definition trap_weights_v (fixed modb bnd : bool) (np npwb lo up : nat) (s e : Qc) : list Qc :=
   map (trap_weight_v fixed modb bnd np npwb lo up s e) (seq 0 np).
+
+(* ---- the tests "the area touches the lower / upper boundary of the domain" in both versions of the code:
+   domrel = false: as it is (math.isclose(start, a), i.e. relative to the COORDINATE, for the lower side; end == b in the
+   trapezoidal / Lagrange / B-spline counts, isclose(end, b) in the Clenshaw-Curtis count and the border indices);
+   domrel = true: with fixes/C08-boundary-tests-domain-relative.patch (Grid1d.touches_lower_boundary / touches_upper_boundary:
+   |x - bound| <= 1e-8 * |b - a| everywhere). ---- *)
+Definition touch_tol (x bound a b : Qc) : bool :=
+  Qc_leb (Qc_abs (x - bound)) (Q2Qc (1 # 100000000) * Qc_abs (b - a)).
